@@ -21,6 +21,9 @@ CLAIMS = {
  "C15": (TECH,
          "Within the stated bounds (texts <= 3 chars over all unicode for the single recording step from an arbitrary accumulated state; 2-3 operation histories of run/call/evaluate/clear_output with texts <= 1 char; input queues <= 3 items) the solver shows the output/input bookkeeping oracle holds on every path; outside the bounds nothing is claimed. The inductive single-step obligation makes the raw/line-view part independent of history length.",
          "exec of student code is a stub writing a symbolic string; CrossHair's str/list models, z3, CPython; harness oracles", "DESIGN.md §3 C15"),
+ "C17": (TECH2,
+         "Index arithmetic decided for all integers by z3 on the AST translation. With re.split stubbed by its contract (symbolic parts of any unicode content, <= 1-2 chars each, one or two markers) CrossHair confirms over all paths the chunk / prefix texts, line offset = newlines before the section, not_enough_sections instead of an error past the end, syntax-error lines shifted to whole-file numbering, and restoration of the original text by stop_sections()/resolve, for independent and cumulative mode and 0-4 next_section calls.",
+         "re.split and the parser are stubs constrained by their contracts; TIFA/sandbox locations inside sections are outside the claim", "DESIGN.md §3 C17"),
  "C20": (TECH,
          "Within the bounds (one instructor-defined feedback with every condition outcome x keyword combination; ordered pairs of core commands; 5 templates x 2 formatters; all 3-step override sequences over a class, an inheriting subclass and an unrelated class followed by clear/contextualize) CrossHair confirms over all paths the recorded-once / truthful / rendered-from-fields / restored oracle.",
          "field values for rendering come from a 4-value menu; CrossHair/z3 models; harness oracle", "DESIGN.md §3 C20"),
